@@ -46,7 +46,7 @@ type blk = {
 
 let kind_of = function
   | "cdc" -> KCdc | "memport" -> KMemPort | "sig2clk" -> KSig2Clk | "sig2rst" -> KSig2Rst
-  | "reg" -> KReg | "pin" -> KPin | _ -> KOther
+  | "reg" -> KReg | "pin" -> KPin | "ext" -> KExt | _ -> KOther
 
 let parse_port s =
   match split_on '.' s with
@@ -140,7 +140,9 @@ let () =
                   (list_field (field rest "ins")) in
               let cl = List.map (fun s -> if s = "?" then (b.berr <- "foreign-clock" :: b.berr; None) else opt_clock s) (list_field (field rest "clocks")) in
               let nd = { nkind = kind_of (field rest "kind"); nid = n_of_int (int_of_string (field rest "id"));
-                         nins = ins; nouts = nat_of_int (int_of_string (field rest "nout")); nclocks = cl } in
+                         nins = ins; nouts = nat_of_int (int_of_string (field rest "nout")); nclocks = cl;
+                         ninclk = List.map (fun s -> if s = "?" then (b.berr <- "foreign-clock" :: b.berr; None) else opt_clock s) (list_field (field rest "inclk"));
+                         noutclk = List.map (fun s -> if s = "?" then (b.berr <- "ext-output-relation-not-a-single-clock" :: b.berr; None) else opt_clock s) (list_field (field rest "outclk")) } in
               b.bnodes <- nd :: b.bnodes
             | None -> ())
        | "rel" :: v :: o :: rest ->
